@@ -238,18 +238,25 @@ func buildC10Pool() *c10Pool {
 	// types the schema reader rejects, used beside the accepted ones: a failing first use takes the same
 	// path through the cache (placeholder, build, clean-up) as a succeeding one
 	badSrc := map[string]string{
-		"verif/bad/v1/bad.proto":  "syntax = \"proto3\";\npackage verif.bad.v1;\nimport \"j5/ext/v1/annotations.proto\";\nmessage BadMap { map<int32, string> m = 1; string s = 2; }\nmessage Fine { string s = 1; int64 n = 2; }\nmessage HoldsBad { BadMap bad = 1; Fine fine = 2; }\nmessage WithChoice { string label = 1; oneof pick { option (j5.ext.v1.oneof).expose = true; string s = 2; int64 n = 3; Fine fine = 4; } }\nmessage ChoiceThenBad { WithChoice choice = 1; repeated WithChoice more = 2; map<int32, string> m = 3; string s = 4; }\n",
+		"verif/bad/v1/bad.proto":  "syntax = \"proto3\";\npackage verif.bad.v1;\nimport \"j5/ext/v1/annotations.proto\";\nmessage BadMap { map<int32, string> m = 1; string s = 2; }\nmessage Fine { string s = 1; int64 n = 2; }\nmessage HoldsBad { BadMap bad = 1; Fine fine = 2; }\nmessage WithChoice { string label = 1; oneof pick { option (j5.ext.v1.oneof).expose = true; string s = 2; int64 n = 3; Fine fine = 4; } }\nmessage Pick { oneof kind { string text = 1; string code = 2; } }\nmessage PickAnnotated { Pick pick = 1 [(j5.ext.v1.field).oneof = {}]; string s = 2; }\nmessage PickPlain { Pick pick = 1; string s = 2; }\nmessage ChoiceThenBad { WithChoice choice = 1; repeated WithChoice more = 2; map<int32, string> m = 3; string s = 4; }\n",
 		"verif/bad2/v1/use.proto": "syntax = \"proto3\";\npackage verif.bad2.v1;\nimport \"verif/bad/v1/bad.proto\";\nmessage UsesBad { verif.bad.v1.BadMap bad = 1; string s = 2; }\nmessage UsesFine { verif.bad.v1.Fine fine = 1; repeated verif.bad.v1.Fine more = 2; }\nmessage UsesHolder { verif.bad.v1.HoldsBad h = 1; }\n",
 	}
 	badCT, err := compileProtoText(badSrc)
 	if err != nil {
 		panic("harness: C10 rejected-type protos do not compile: " + err.Error())
 	}
-	for _, full := range []string{"verif.bad.v1.BadMap", "verif.bad.v1.Fine", "verif.bad.v1.HoldsBad", "verif.bad.v1.WithChoice", "verif.bad.v1.ChoiceThenBad", "verif.bad2.v1.UsesBad", "verif.bad2.v1.UsesFine", "verif.bad2.v1.UsesHolder"} {
+	for _, full := range []string{"verif.bad.v1.BadMap", "verif.bad.v1.Fine", "verif.bad.v1.HoldsBad", "verif.bad.v1.WithChoice", "verif.bad.v1.ChoiceThenBad", "verif.bad.v1.Pick", "verif.bad.v1.PickAnnotated", "verif.bad.v1.PickPlain", "verif.bad2.v1.UsesBad", "verif.bad2.v1.UsesFine", "verif.bad2.v1.UsesHolder"} {
 		md := badCT.message(full)
 		m := dynamicpb.NewMessage(md)
 		if fd := md.Fields().ByName("s"); fd != nil {
 			m.Set(fd, protoreflect.ValueOfString("x"))
+		}
+		if fd := md.Fields().ByName("pick"); fd != nil {
+			pm := m.Mutable(fd).Message()
+			pm.Set(pm.Descriptor().Fields().ByName("text"), protoreflect.ValueOfString("picked"))
+		}
+		if fd := md.Fields().ByName("text"); fd != nil {
+			m.Set(fd, protoreflect.ValueOfString("picked"))
 		}
 		pool.items = append(pool.items, &c10Item{name: "rejected-family/" + full, md: md, msg: m, newMsg: func() protoreflect.Message { return dynamicpb.NewMessage(md) }})
 	}
